@@ -221,6 +221,18 @@ func init() {
 			return nil
 		},
 		verifrtPath + ".Yields": func(m *Machine, fr *frame, a []value) value { return int64(m.sch().yields) },
+		verifrtPath + ".MustTerminate": func(m *Machine, fr *frame, a []value) value {
+			m.path.mustTerminate = concStr(a[0])
+			if n := int(a[1].(int64)); n > 0 {
+				m.path.maxSteps = m.path.steps + n
+			}
+			return nil
+		},
+		verifrtPath + ".Terminated": func(m *Machine, fr *frame, a []value) value {
+			m.path.mustTerminate = ""
+			m.path.maxSteps = m.path.steps + m.path.stepBudget
+			return nil
+		},
 		verifrtPath + ".ExpectTraps": func(m *Machine, fr *frame, a []value) value {
 			m.path.trapsExpected = true
 			return nil
